@@ -123,7 +123,7 @@ CLAIMED = {
             'fake Client class.', 'DESIGN.md section 6 C19'),
 }
 
-READY = {'C01', 'C02', 'C07', 'C08', 'C03', 'C04', 'C05', 'C06', 'C09', 'C10', 'C15', 'C19', 'C20', 'C11', 'C12', 'C13', 'C14', 'C16', 'C17'}
+READY = {'C01', 'C02', 'C07', 'C08', 'C18', 'C03', 'C04', 'C05', 'C06', 'C09', 'C10', 'C15', 'C19', 'C20', 'C11', 'C12', 'C13', 'C14', 'C16', 'C17'}
 NOT_YET = 'check not built yet in this round; planned as described in DESIGN.md section 6'
 
 
